@@ -150,6 +150,21 @@ def family_d():
             srv_local = loc if loc != "x" else "x2"
             out.append(("D:%s:%s" % (act, loc), PRE + "let srv(x : 1) : 1 -* 1 = %s <- new unit(); <u, w> <- recv self; wait x; wait %s; wait u; print served; close w\n"
                         "prc[a] : 1 = %s <- new unit(); p <- new srv(%s); %s\n" % (srv_local, srv_local, "y" if loc != "p" else "y", "y" if loc != "p" else "y", tail)))
+    # the callee is blocked in a receive when it is duplicated / dropped, and a binder that has NOT executed yet, further down
+    # in its body, is spelt like the channel it got from its caller (or like one it received)
+    pend = {
+        "cut": "{b} <- new unit(); wait x; wait {b}; wait u; print served; close w",
+        "split": "<{b}, k> <- split u; wait x; wait {b}; wait k; print served; close w",
+        "recv": "q : 1 * 1 <- new send self<x, u>; <{b}, k> <- recv q; wait {b}; wait k; print served; close w",
+        "case": "q : +{{l : 1}} <- new self.l<x>; case q (l<{b}> => wait {b}; wait u; print served; close w)",
+    }
+    for kind, body in pend.items():
+        for bname in ("y", "z", "u", "x"):
+            for act in ("split", "drop"):
+                tail = ("<p1, p2> <- split p; t1 <- new unit(); t2 <- new unit(); r1 : 1 <- new send p1<t1, self>; r2 : 1 <- new send p2<t2, self>; "
+                        "wait r1; print one; wait r2; print two; close self") if act == "split" else "drop p; print dropped; close self"
+                out.append(("D:pending:%s:%s:%s" % (kind, act, bname), PRE + "let srv(x : 1) : 1 -* 1 = <u, w> <- recv self; %s\n"
+                            "prc[a] : 1 = y <- new unit(); p <- new srv(y); %s\n" % (body.format(b=bname), tail)))
     # recursion: each unfolding creates a channel under the same binder, all held together and then duplicated
     out.append(("D:rec:split", PRE + "type L = +{nil : 1, cons : 1 * L}\n"
                 "let nil() : L = t <- new unit(); self.nil<t>\nlet cons(t : L) : L = c <- new unit(); p : 1 * L <- new send self<c, t>; self.cons<p>\n"
@@ -207,6 +222,8 @@ def renaming_groups():
     groups = {}
     for i, t in programs():
         parts = i.split(":")
+        if parts[2] == "pending" and parts[-1] in ("u", "x"):      # some of these re-bind a live name: not alpha-variants
+            continue
         if parts[1] in ("B", "D") and len(parts) >= 4 and parts[1:3] not in (["B", "cut"], ["D", "rec"]):
             groups.setdefault(":".join(parts[:-1]), []).append(t)
     return [(g, ts[-1], ts[:-1]) for g, ts in sorted(groups.items()) if len(ts) > 1]
